@@ -285,7 +285,14 @@ def build_stack(spec, progress=None):
 
 # ------------------------------------------------------------------------------------------------- generation
 def gen_seed(rng):
-    return rng.choice(BOUNDARY_SEEDS) if rng.random() < 0.35 else rng.randrange(2 ** 40)
+    """seed of a seeded wrapper: 0 (falsy - a truthiness test `if self.seed` treats it as 'no seed') in 25% of the draws,
+    another boundary value in 25%, arbitrary otherwise"""
+    u = rng.random()
+    if u < 0.25:
+        return 0
+    if u < 0.5:
+        return rng.choice(BOUNDARY_SEEDS[1:])
+    return rng.randrange(1, 2 ** 40)
 
 
 def gen_subset(rng, n):
